@@ -88,6 +88,7 @@ func runLockmon(cfg *RunCfg, rep *Reporter, cov *Cov) {
 	runROEmptyDir(cfg, rep, cov)
 	runBlockingOpenFails(cfg, rep, cov)
 	runROConcurrent(cfg, rep, cov)
+	runROCloseVsQuery(cfg, rep, cov)
 }
 
 func runLockSeq(cfg *RunCfg, rep *Reporter, cov *Cov, code int, seq []lockAct) {
@@ -477,6 +478,110 @@ func runROConcurrent(cfg *RunCfg, rep *Reporter, cov *Cov) {
 			}
 		}
 		cov.Distinct("lock", fmt.Sprintf("ro-concurrent|%s|handles=%d", icfg, len(hs)))
+		os.RemoveAll(dir)
+	}
+}
+
+// runROCloseVsQuery: "the lock is released by Close" also when another goroutine is inside a query on
+// the same read-only handle: the query is held at a pause point (index loaded / log mapped and
+// counted as in use), Close is issued, the query is released. Close must return nil (it may wait for
+// the query) and the directory must open for writing afterwards.
+func runROCloseVsQuery(cfg *RunCfg, rep *Reporter, cov *Cov) {
+	points := []string{"reader.afterIndex", "reader.afterGetMessages"}
+	for k := 0; k < 8; k++ {
+		point := points[k%2]
+		dir := filepath.Join(cfg.Scratch, fmt.Sprintf("rocq%d", k))
+		l0, err := kOpen(dir, OpenOpts{Rollover: []int64{1 << 20, 150}[k/2%2], Create: true, KeyIndex: true})
+		if err != nil {
+			continue
+		}
+		for i := 0; i < 6; i++ {
+			kPublish(l0, []klevdb.Message{{Key: []byte("k"), Value: []byte(fmt.Sprintf("value-%d", i))}})
+		}
+		kClose(l0)
+		ro, err := kOpen(dir, OpenOpts{Readonly: true, KeyIndex: true})
+		if err != nil {
+			continue
+		}
+		hm := &hookMode{dyn: map[int64]*hookClient{}}
+		installHook(hm)
+		hc := &hookClient{id: 1, points: map[string]int{}, hits: map[string]int{}, arrived: make(chan string, 1), release: make(chan struct{}), armPoint: point, armNth: 1}
+		qDone := make(chan error, 1)
+		go func() {
+			hm.mu.Lock()
+			hm.dyn[goid()] = hc
+			hm.mu.Unlock()
+			_, _, err := kConsume(ro, 0, 2)
+			qDone <- err
+		}()
+		held := false
+		select {
+		case <-hc.arrived:
+			held = true
+		case err := <-qDone:
+			qDone <- err
+		case <-time.After(20 * time.Second):
+		}
+		cDone := make(chan error, 1)
+		var cGid int64
+		gch := make(chan int64, 1)
+		go func() {
+			gch <- goid()
+			cDone <- kClose(ro)
+		}()
+		cGid = <-gch
+		how := "returned-while-query-held"
+		var cerr error
+		closed := false
+		if held {
+		wait:
+			for spin := 0; spin < 20000; spin++ {
+				select {
+				case cerr = <-cDone:
+					closed = true
+					break wait
+				default:
+				}
+				if spin%20 == 19 {
+					if ws, ok := waitStates()[cGid]; ok && isBlockedState(ws[0]) {
+						how = "waited-for-the-query"
+						break wait
+					}
+				}
+				time.Sleep(50 * time.Microsecond)
+			}
+			close(hc.release)
+		}
+		if !closed {
+			select {
+			case cerr = <-cDone:
+			case <-time.After(30 * time.Second):
+				installHook(nil)
+				rep.Report(Violation{Property: "C19", Sig: "lockmon|ro-close-vs-query:close-stuck", What: "Close of a read-only handle never returned after the query that was in progress finished", Replay: map[string]any{"point": point}})
+				continue
+			}
+		}
+		select {
+		case <-qDone:
+		case <-time.After(30 * time.Second):
+		}
+		installHook(nil)
+		cov.Add("evaluations", 1)
+		if !held {
+			cov.Add("ro_close_vs_query.window_unreached", 1)
+		}
+		cov.Distinct("lock", fmt.Sprintf("ro-close-vs-query|%s|%s", point, how))
+		if cerr != nil {
+			rep.Report(Violation{Property: "C19", Sig: "lockmon|ro-close-vs-query:close-error", What: fmt.Sprintf("Close of a read-only handle failed (%s) because a Consume on the same handle was in progress (held at %s): the directory lock is not released", errText(cerr), point), Replay: map[string]any{"point": point, "close": how}})
+		}
+		l2, err := kOpen(dir, OpenOpts{Rollover: 1 << 20, KeyIndex: true})
+		if err != nil {
+			if cerr == nil {
+				rep.Report(Violation{Property: "C19", Sig: "lockmon|ro-close-vs-query:lock-not-released", What: fmt.Sprintf("after Close of a read-only handle returned nil (a Consume had been in progress, held at %s) the directory cannot be opened for writing: %s", point, errText(err)), Replay: map[string]any{"point": point, "close": how}})
+			}
+		} else {
+			kClose(l2)
+		}
 		os.RemoveAll(dir)
 	}
 }
